@@ -27,12 +27,20 @@ RULE = ("(a) seeded (size,k,n,maxSeg|segsize) tuples concentrated on size ≡ 0,
         "a malformed stream (k=0, segsize=0, segsize%k≠0, sizes around 2^32/2^64): one case = one tuple run through the real "
         "BaseUploadable/Encoder/_calculate_sizes/WriteBucketProxy(_v2)/ReadBucketProxy/Share methods; non-trivial = the "
         "encoder accepted the parameters (no exception); (b) one case = one file uploaded to and downloaded from an in-process "
-        "grid (1..N+3 servers, seeded delivery order); distinct = distinct (size,k,n,maxSeg,servers,seed)")
+        "grid (1..N+3 servers, seeded delivery order) through a seeded choice of source (Data / FileHandle / FileName) and key "
+        "mode (convergence secret / convergence=None, i.e. a random key) and read back through the cap that very upload "
+        "returned, plus further uploads of the same bytes (and 55/56/57-byte prefixes) through the other source x key-mode "
+        "combinations, each read back through its own cap; distinct = distinct (size,k,n,maxSeg,servers,seed,source,key mode). "
+        "The encryption key is a parameter of the model (the theorems quantify over all keys): the harness feeds the "
+        "keystream of the key found in the returned cap")
 TRUSTED = ["lean/Tahoe/Immutable/{Sizes,Layout,Pipeline}.lean are hand transcriptions of upload.py/encode.py/layout.py/"
            "downloader/{node,share,segmentation}.py/filenode.py (sequential read_encrypted modelled as take/drop on the "
            "remaining ciphertext; the put_* calls of one share modelled as an (offset,length) sequence)",
            "harness/grid.py (in-process grid, seeded scheduler)"]
-ASSUMPTIONS = ["delivery orders are those of a fair scheduler (seeded random choice among pending messages, or FIFO): a LIFO "
+ASSUMPTIONS = ["the encryption key (convergent hash or os.urandom output) is an arbitrary input of the model; upload_download "
+               "holds for every key, and the cap is assumed to carry the key the shares were encrypted under (checked on every "
+               "end-to-end case by reading back through the returned cap and by comparing the primary shares' bytes)",
+               "delivery orders are those of a fair scheduler (seeded random choice among pending messages, or FIFO): a LIFO "
                "scheduler starves old messages forever (the downloader keeps issuing reads to the one server that answers), "
                "which no network that eventually delivers every message can do; termination is C03/C46",
                "zfec satisfies the MDS law and block length = piece length (hypothesis Codec.Lawful; sampled by every end-to-end "
@@ -488,6 +496,57 @@ def gen_file(rng, thorough, idx):
     return size, k, n, min(happy, servers), ms, servers
 
 
+SECRET = b"c01" + b"\x00" * 13
+COMBOS = [(src, km) for src in ("Data", "FileHandle", "FileName") for km in ("convergent", "random")]
+
+
+def make_uploadable(upload, source, keymode, data, tag):
+    """(uploadable, cleanup): the same bytes through Data / FileHandle / FileName, convergent or random key"""
+    import io
+    import common
+    conv = SECRET if keymode == "convergent" else None
+    if source == "Data":
+        return upload.Data(data, convergence=conv), None
+    if source == "FileHandle":
+        return upload.FileHandle(io.BytesIO(data), convergence=conv), None
+    fn = os.path.join(common.WORK, "c01-src-%s-%d" % (tag, os.getpid()))
+    with open(fn, "wb") as f:
+        f.write(data)
+    return upload.FileName(fn, convergence=conv), fn
+
+
+def roundtrip(ctx, rt, c, upload, source, keymode, data, case, what):
+    """upload through (source, keymode) and read back through the cap returned by that very upload"""
+    from allmydata.util.consumer import MemoryConsumer
+    sig = "%s-key:%s" % (keymode, source)
+    u, fn = make_uploadable(upload, source, keymode, data, "b")
+    try:
+        try:
+            res = rt.wait(c.upload(u))
+        except Exception as ex:
+            ctx.violation("upload (%s, %s key) of a valid file to an honest grid failed" % (source, keymode), case,
+                          "upload-failed:%s:%s" % (sig, type(ex).__name__), repr(ex)[:300])
+            return None
+        mc = MemoryConsumer()
+        try:
+            rt.wait(c.create_node_from_uri(res.get_uri()).read(mc, 0, None))
+            got = b"".join(mc.chunks)
+        except Exception as ex:
+            ctx.violation("%s: reading back through the cap the upload returned failed" % what, case,
+                          "roundtrip-failed:%s:%s" % (sig, type(ex).__name__), repr(ex)[:300])
+            return res
+        if got != data:
+            ctx.violation("%s: bytes read back through the returned cap differ from the uploaded bytes" % what, case,
+                          "roundtrip-failed:%s:wrong-bytes" % sig, {"len_got": len(got), "len_want": len(data)})
+        return res
+    finally:
+        if fn:
+            try:
+                os.unlink(fn)
+            except OSError:
+                pass
+
+
 def run_grid(ctx):
     import grid
     from allmydata.immutable import upload
@@ -504,7 +563,9 @@ def run_grid(ctx):
             files.append(f + (rng.randrange(1 << 30), rng.choice(["random", "random", "random", "fifo"])))
     lines, impl, metas = [], [], []
     for (size, k, n, happy, max_seg, servers, seed, policy) in files:
-        case = {"kind": "file", "t": [size, k, n, happy, max_seg, servers, seed, policy]}
+        mrng = __import__("random").Random("c01-src-%d" % seed)
+        source, keymode = mrng.choice(COMBOS)
+        case = {"kind": "file", "t": [size, k, n, happy, max_seg, servers, seed, policy], "source": source, "keymode": keymode}
         drng = __import__("random").Random(seed)
         data = bytes(drng.randrange(256) for _ in range(min(size, 4096)))
         data = (data * (size // max(1, len(data)) + 1))[:size]
@@ -513,12 +574,20 @@ def run_grid(ctx):
                           max_segment_size=max_seg)
             try:
                 c = g.clients[0]
+                u_main, fn_main = make_uploadable(upload, source, keymode, data, "a")
                 try:
-                    res = rt.wait(c.upload(upload.Data(data, convergence=b"c01" + b"\x00" * 13)))
+                    res = rt.wait(c.upload(u_main))
                 except Exception as ex:
-                    ctx.violation("upload of a valid file to an honest grid failed", case, "upload-failed-" + type(ex).__name__,
-                                  repr(ex)[:300])
+                    ctx.violation("upload of a valid file to an honest grid failed", case,
+                                  "upload-failed:%s-key:%s:%s" % (keymode, source, type(ex).__name__), repr(ex)[:300])
                     continue
+                finally:
+                    if fn_main:
+                        try:
+                            os.unlink(fn_main)
+                        except OSError:
+                            pass
+                ctx.count("grid:source=%s,%s-key" % (source, keymode))
                 cap = uri.from_string(res.get_uri())
                 ueb = res.get_uri_extension_data()
                 if (cap.needed_shares, cap.total_shares, cap.size) != (k, n, size):
@@ -535,23 +604,28 @@ def run_grid(ctx):
                 by_num = {}
                 for (srv, shnum, path) in shares:
                     by_num.setdefault(shnum, share_data(path))
-                if sorted(by_num) != list(range(n)):
+                if by_num and sorted(by_num) != list(range(n)):
                     ctx.violation("not every share number was placed", case, "shares-missing")
-                ueb_len = len(uri.pack_extension(ueb))
-                nsh = num_share_hashes(n)
-                lines.append("offsets a %d %d %d %d %d" % (enc_nums[2], enc_nums[4], enc_nums[1], nsh, ueb_len))
-                sd0 = by_num[min(by_num)]
-                hdrlen = 0x24 if sd0[:4] == b"\x00\x00\x00\x01" else 0x44
-                impl.append("F;%d;%s" % (len(sd0), hx(sd0[:hdrlen])))
-                metas.append(case)
-                if len({len(v) for v in by_num.values()}) != 1:
-                    ctx.violation("shares of one file have different lengths", case, "share-lengths-differ")
-                ks = keystream(cap.key, size)
-                lines.append("shares %d %d %s %s" % (k, max_seg, hx(ks), hx(data)))
-                datastart = struct.unpack(">L", sd0[0x0c:0x10])[0] if hdrlen == 0x24 else struct.unpack(">Q", sd0[0x14:0x1c])[0]
-                prim = [by_num[j][datastart:datastart + enc_nums[2]] for j in range(k) if j in by_num]
-                impl.append("S;" + ",".join(hx(p) for p in prim))
-                metas.append(case)
+                if not by_num:
+                    ctx.violation("no share is stored under the storage index of the returned cap", case,
+                                  "cap-si-has-no-shares:%s-key:%s" % (keymode, source))
+                    ks = keystream(cap.key, size)
+                else:
+                    ueb_len = len(uri.pack_extension(ueb))
+                    nsh = num_share_hashes(n)
+                    lines.append("offsets a %d %d %d %d %d" % (enc_nums[2], enc_nums[4], enc_nums[1], nsh, ueb_len))
+                    sd0 = by_num[min(by_num)]
+                    hdrlen = 0x24 if sd0[:4] == b"\x00\x00\x00\x01" else 0x44
+                    impl.append("F;%d;%s" % (len(sd0), hx(sd0[:hdrlen])))
+                    metas.append(case)
+                    if len({len(v) for v in by_num.values()}) != 1:
+                        ctx.violation("shares of one file have different lengths", case, "share-lengths-differ")
+                    ks = keystream(cap.key, size)
+                    lines.append("shares %d %d %s %s" % (k, max_seg, hx(ks), hx(data)))
+                    datastart = struct.unpack(">L", sd0[0x0c:0x10])[0] if hdrlen == 0x24 else struct.unpack(">Q", sd0[0x14:0x1c])[0]
+                    prim = [by_num[j][datastart:datastart + enc_nums[2]] for j in range(k) if j in by_num]
+                    impl.append("S;" + ",".join(hx(p) for p in prim))
+                    metas.append(case)
                 # --- monitor: download with the returned cap gives the uploaded bytes (seeded delivery order)
                 node = c.create_node_from_uri(res.get_uri())
                 mc = MemoryConsumer()
@@ -560,7 +634,8 @@ def run_grid(ctx):
                     got = b"".join(mc.chunks)
                 except Exception as ex:
                     got = None
-                    ctx.violation("download of an uploaded file failed", case, "download-failed-" + type(ex).__name__, repr(ex)[:300])
+                    ctx.violation("reading back through the cap the upload returned failed", case,
+                                  "roundtrip-failed:%s-key:%s:%s" % (keymode, source, type(ex).__name__), repr(ex)[:300])
                 if got is not None and got != data:
                     ctx.violation("downloaded bytes differ from the uploaded bytes", case,
                                   "roundtrip-" + cls_of(size, k, ueb["segment_size"]),
@@ -571,6 +646,16 @@ def run_grid(ctx):
                     lines.append("updown %d %d %s %s %d" % (k, max_seg, hx(ks), hx(data), seed % 17))
                     impl.append("D;" + hx(got if got is not None else b""))
                     metas.append(case)
+                # --- the other ways of uploading (source x convergent/random key), sizes at the literal boundary and this
+                #     file's own size: each read back through the cap returned by that very upload
+                others = [cb for cb in COMBOS if cb != (source, keymode)]
+                for (src2, km2) in (others if thorough else mrng.sample(others, 2)):
+                    size2 = mrng.choice([size, size, 56, 57, 55, max(56, size - 1)])
+                    data2 = data[:size2] if size2 <= size else (data * (size2 // max(1, size) + 1))[:size2]
+                    case2 = dict(case, other=[src2, km2, size2])
+                    if roundtrip(ctx, rt, c, upload, src2, km2, data2, case2, "upload via %s with a %s key" % (src2, km2)) is not None:
+                        ctx.case(("F2", size2, k, n, max_seg, src2, km2, seed))
+                        ctx.count("grid:other=%s,%s-key" % (src2, km2))
                 ctx.case(("F", size, k, n, max_seg, servers, seed))
                 ctx.count("grid:k=%s" % ("1" if k == 1 else "n" if k == n else "mid"))
                 ctx.count("grid:nseg=%s" % ("1" if ueb["num_segments"] == 1 else "2-9" if ueb["num_segments"] < 10 else "10+"))
